@@ -155,7 +155,15 @@ pub fn s1(property: &str, scenario: &str, seed: u64, o: &S1Opts) -> Plan {
             stop_us: None,
             prepoll_ppm: *c.pick(&[27, k], &[0u32, 0, 500_000, 1_000_000]),
             poll_period_us: 0,
-            use_wait: mp == 0 && c.chance(&[28, k], 300_000),
+            // the wait helpers: in lockstep they poll for up to a frame time (or the given timeout),
+            // in rollback mode they are documented to behave exactly like advance_frame()
+            use_wait: if mp == 0 { c.chance(&[28, k], 300_000) } else { c.chance(&[28, k], 80_000) },
+            wait_timeout_us: match c.range(&[55, k], 0, 5) {
+                0 | 1 | 2 => None,
+                3 => Some(0),
+                4 => Some(period / 2),
+                _ => Some(3 * period),
+            },
             poll_only: false,
         };
         nodes[i].wall_offset_ms = c.range(&[29, k], 1_000_000_000, 2_000_000_000_000);
